@@ -4,7 +4,9 @@ ConfigParser: options are a map 'SECTION/option' -> raw string.  With the defaul
 BasicInterpolation, `set` rejects values with a bad '%' syntax (ValueError) and `get`
 returns interp(raw) where interp is the identity only on values without '%'.  With
 interpolation=None both are raw.  write()/read() round trip is assumed to be the identity
-on the map (bounded conformance: bounded/conf_config.py).  Section fall-back to DEFAULT is
+on the map - which the libraries guarantee only for values WITHOUT a line feed and without
+outer white space (bounded conformance: bounded/conf_models.py and replay/config_explore.py;
+values with a line feed are a recorded known finding of C15).  Section fall-back to DEFAULT is
 not modelled (the code reads DEFAULT and [calendar] with distinct option names)."""
 
 from __future__ import annotations
